@@ -92,6 +92,72 @@ def random_case(rng):
         seqs.append(s)
     return case_txt(v, sent, seqs)
 
+
+# ---------------------------------------------------------------- API surface: which overload / instantiation a case runs
+ELEMS_COPY = ["e1", "e8", "e16"]        # sizeof <= 2*sizeof(size_t): the switch templates pick the copy classes
+ELEMS_PTR = ["e17", "e24"]              # larger: pointer classes
+CMPS = ["lt", "gt", "st+", "st-", "df"]
+
+def flavour(rng, cls):
+    """element type, comparator and how the class is named, drawn from the seed for every case.
+    s = through tlx::LoserTree<> / tlx::LoserTreeUnguarded<> (P|C must agree with sizeof), m = move-constructed (PG classes)."""
+    via = rng.choice(["d", "d", "s", "s", "m"] if cls[:2] == "PG" else ["d", "s"])
+    if via == "s":
+        elem = rng.choice(ELEMS_PTR if cls[0] == "P" else ELEMS_COPY)
+    else:
+        elem = rng.choice(ELEMS_COPY + ELEMS_PTR)
+    return "%s:%s:%s:%s" % (cls, elem, rng.choice(CMPS), via)
+
+def add_flavours(rng, cases, start):
+    for i in range(start, len(cases)):
+        cls, _, rest = cases[i].partition(" ")
+        if ":" not in cls:
+            cases[i] = flavour(rng, cls) + " " + rest
+
+def flip_keys(c):
+    """with a reversed comparator (gt, st-) 'small' means large: mirror the keys (1..99 -> 99..1) and the sentinel so that
+    the generators' intent (sentinel not less than the keys, sorted runs, ...) survives"""
+    t = c.split()
+    if t[0].split(":")[2] not in ("gt", "st-"):
+        return c
+    m = lambda x: str(100 - int(x))
+    out = [t[0], "0" if t[0][1] == "G" else m(t[1])]
+    for sq in t[2:]:
+        out.append("-" if sq == "-" else ",".join(m(x) for x in sq.split(",")))
+    return " ".join(out)
+
+REGIME_K = [1, 2, 3, 5, 6, 7, 8, 9, 16, 17, 33, 40]
+def regimes(rng, out, hist):
+    """directed cases, every class at every k of REGIME_K: players exhausted from the start at LEFT positions with live
+    right neighbours, all players exhausted, a single live player at each end, equal keys everywhere, keys equal to the
+    sentinel (unguarded), non-power-of-two k whose padding leaves meet live / exhausted players in the tournament"""
+    n0 = len(out)
+    for v in VARIANTS + GENERAL:
+        guarded = v[1] == "G"
+        for k in REGIME_K:
+            pats = []
+            if guarded:
+                for left in sorted(set([1, k // 2, k - 1])):
+                    if 0 < left < k:
+                        pats.append([[]] * left + [[2, 2]] * (k - left))                      # exhausted left block, live right block
+                        pats.append([[] if i % 2 == 0 else [1 + i % 3, 3] for i in range(k)])  # exhausted at every even (left) position
+                pats.append([[]] * k)                                                          # all exhausted
+                pats.append([[]] * (k - 1) + [[1, 1, 1]])                                      # only the last player lives
+                pats.append([[1, 1, 1]] + [[]] * (k - 1))                                      # only the first player lives
+                pats.append([[2, 2]] * k)                                                      # equal keys everywhere
+                pats.append([[3 - (i % 3)] for i in range(k)])
+                for p in pats:
+                    out.append(case_txt(v, 0, p))
+            else:
+                for sent in (2, 3):
+                    out.append(case_txt(v, sent, [[2, 2, 2]] * k))                             # all keys equal (to the sentinel when sent = 2)
+                    out.append(case_txt(v, sent, [[1, 2, 2]] * k))
+                    out.append(case_txt(v, sent, [[2, 2] if i % 2 == 0 else [1, 2, 2] for i in range(k)]))
+                    out.append(case_txt(v, sent, [[1, 1, 2]] + [[2, 2]] * (k - 1)))
+                    out.append(case_txt(v, sent, [[2, 2]] * (k - 1) + [[1, 1, 2]]))             # minimum at the rightmost real leaf, next to the padding
+    hist["directed regimes (exhausted-left, all exhausted, single live, all equal, keys = sentinel) k in %s" % REGIME_K] = True
+    return len(out) - n0
+
 hist = {}
 cases = [l.strip() for l in open(os.path.join(verif.VERIF, "corpus", "C09", "cases.txt")) if l.strip() and not l.startswith("#")]
 ncorpus = len(cases)
@@ -121,10 +187,14 @@ else:
         exhaustive_general(3, 3, 3, cases, hist)
         exhaustive_general(4, 2, 3, cases, hist)
         exhaustive_general(9, 2, 1, cases, hist)
+    nreg = regimes(rng, cases, hist)
     nexh = len(cases) - ncorpus
     NR = 150000 if ck.thorough() else 20000
     for _ in range(NR):
         cases.append(random_case(rng))
+    add_flavours(rng, cases, ncorpus)
+    for i in range(ncorpus, len(cases)):
+        cases[i] = flip_keys(cases[i])
 casefile = os.path.join(ck.scratch, "cases.txt")
 with open(casefile, "w") as f:
     f.write("\n".join(cases) + "\n")
@@ -156,11 +226,50 @@ def canon(v, line):
         t = t[:-1]
     return " ".join(t)
 
+
+def api_surface():
+    g = lambda k: fstats.get(k, 0)
+    cls = lambda c: sum(n for v, n in stats.items() if v[0] == c[0] and (v[1] == c[1] or (c[1] == "U" and v[1] == "V")) and v[2] == c[2])
+    rows = []
+    names = {"CGN": "LoserTreeCopy<false,T,Cmp>", "CGS": "LoserTreeCopy<true,T,Cmp>", "PGN": "LoserTreePointer<false,T,Cmp>",
+             "PGS": "LoserTreePointer<true,T,Cmp>", "CUN": "LoserTreeCopyUnguarded<false,T,Cmp>", "CUS": "LoserTreeCopyUnguarded<true,T,Cmp>",
+             "PUN": "LoserTreePointerUnguarded<false,T,Cmp>", "PUS": "LoserTreePointerUnguarded<true,T,Cmp>"}
+    for c, nme in sorted(names.items()):
+        rows.append({"api": "class tlx::" + nme + " (and its base class): ctor, insert_start, init -> init_winner, min_source, delete_min_insert",
+                     "called": cls(c) > 0, "cases": cls(c)})
+    rows += [
+        {"api": "tlx::LoserTree<Stable,T,Cmp> switch alias -> copy classes (sizeof(T) in {1,8,16})", "called": g("switch->copy") > 0, "cases": g("switch->copy")},
+        {"api": "tlx::LoserTree<Stable,T,Cmp> switch alias -> pointer classes (sizeof(T) in {17,24})", "called": g("switch->pointer") > 0, "cases": g("switch->pointer")},
+        {"api": "tlx::LoserTreeUnguarded<Stable,T,Cmp> switch alias -> copy classes", "called": g("switch->copy unguarded") > 0, "cases": g("switch->copy unguarded")},
+        {"api": "tlx::LoserTreeUnguarded<Stable,T,Cmp> switch alias -> pointer classes", "called": g("switch->pointer unguarded") > 0, "cases": g("switch->pointer unguarded")},
+        {"api": "guarded ctor (k, cmp) / unguarded ctor (k, sentinel, cmp) with an explicit comparator object: KeyLess, KeyGreater, stateful (+/-)",
+         "called": True, "cases": g("cmp=lt") + g("cmp=gt") + g("cmp=st+") + g("cmp=st-")},
+        {"api": "ctor with the default comparator argument and default template argument Comparator = std::less<ValueType>", "called": g("cmp=df") > 0, "cases": g("cmp=df")},
+        {"api": "LoserTreePointerBase(LoserTreePointerBase&&) = default (move construction, then use of the moved-to tree)", "called": g("via=m") > 0, "cases": g("via=m")},
+        {"api": "insert_start(const ValueType* keyp, source, sup) with keyp != nullptr, sup = false", "called": True, "cases": sum(stats.values())},
+        {"api": "insert_start(nullptr, source, true) (player exhausted from the start; guarded classes)", "called": g("insert_start(nullptr,i,true)") > 0, "cases": g("insert_start(nullptr,i,true)")},
+        {"api": "init() / init_winner(root) (init_winner is public but only meaningful from init(); reached through init())", "called": True, "cases": sum(stats.values())},
+        {"api": "min_source() after init() and after every delete_min_insert()", "called": True, "cases": sum(stats.values())},
+        {"api": "delete_min_insert(const ValueType* keyp, false)", "called": True, "cases": sum(stats.values())},
+        {"api": "delete_min_insert(nullptr, true) (guarded classes)", "called": g("delete_min_insert(nullptr,true)") > 0, "cases": g("delete_min_insert(nullptr,true)")},
+        {"api": "ValueType of 1 / 8 / 16 / 17 / 24 bytes", "called": all(g(e) > 0 for e in ELEMS_COPY + ELEMS_PTR),
+         "cases": {e: g(e) for e in ELEMS_COPY + ELEMS_PTR}},
+        {"api": "number of players", "called": True, "cases": "1..%d" % (max(kstats) if kstats else 0)},
+        {"api": "copy construction / copy assignment of the trees", "called": False,
+         "cases": "deleted for the pointer classes, implicitly unavailable (SimpleVector is move-only) for the copy classes: not part of the usable surface"},
+        {"api": "LoserTreePointerUnguardedBase constructed from a temporary sentinel (stores &sentinel)", "called": False,
+         "cases": "caller contract: the sentinel object must outlive the tree; the harness keeps it alive (as multiway_merge does)"},
+    ]
+    return rows
+
 found = False
-exe, log = ck.build_cpp("c09_harness", ["harness/C09/lt_harness.cpp"])
+exe, log = ck.build_cpp("c09_harness", ["harness/C09/lt_harness.cpp"],
+                        flags=None if ck.thorough() else ["-std=c++17", "-O0", "-g", "-fsanitize=address,undefined",
+                                                           "-fno-sanitize-recover=all", "-fno-omit-frame-pointer"])
 drv, dlog = ck.ocaml_driver("C09")
 stats = {v: 0 for v in VARIANTS + GENERAL}
 kstats = {}
+fstats = {}
 nontrivial = set()
 samples = []
 unstable_equal = 0
@@ -202,6 +311,27 @@ else:
             v = c[:3]
             stats[v] += 1
             kk = len(c.split()) - 2
+            fl = c.split(" ", 1)[0].split(":")
+            if len(fl) == 4:
+                for tag in (fl[1], "cmp=" + fl[2], "via=" + fl[3], v[:2] + "/" + fl[1], v[:2] + "/cmp=" + fl[2]):
+                    fstats[tag] = fstats.get(tag, 0) + 1
+                if fl[3] == "s":
+                    fstats["switch->" + ("copy" if v[0] == "C" else "pointer") + ("" if v[1] == "G" else " unguarded")] = \
+                        fstats.get("switch->" + ("copy" if v[0] == "C" else "pointer") + ("" if v[1] == "G" else " unguarded"), 0) + 1
+            if v[1] == "G":
+                sq = c.split()[2:]
+                if "-" in sq:
+                    fstats["insert_start(nullptr,i,true)"] = fstats.get("insert_start(nullptr,i,true)", 0) + 1
+                    if sq[0] == "-" and any(x != "-" for x in sq[1:]):
+                        fstats["exhausted-left-with-live-right/" + v] = fstats.get("exhausted-left-with-live-right/" + v, 0) + 1
+                    if all(x == "-" for x in sq):
+                        fstats["all-exhausted/" + v] = fstats.get("all-exhausted/" + v, 0) + 1
+                if any(x != "-" for x in sq):
+                    fstats["delete_min_insert(nullptr,true)"] = fstats.get("delete_min_insert(nullptr,true)", 0) + 1
+            if a.startswith("?"):
+                ck.violation("harness rejected a generated case: " + a, {"correspondence": "checks/C09.py generator vs harness/C09/lt_harness.cpp",
+                                                                          "first_disagreeing_case": c}, no_input=True)
+                break
             kstats[kk] = kstats.get(kk, 0) + 1
             mtrace, _, verdict = b.partition(" ; chk=")
             if is_nontrivial(c):
@@ -248,6 +378,8 @@ ck.finish({
     "input_distribution": {"per_class": stats, "per_player_count": {str(k): n for k, n in sorted(kstats.items())},
                            "exhaustive_blocks": sorted(hist.keys()), "corpus": ncorpus},
     "exhaustive": False,
+    "api_surface": api_surface(),
+    "flavour_histogram": {k: fstats[k] for k in sorted(fstats)},
     "unstable_cases_equal_to_model": "%d of %d" % (unstable_equal, unstable_total),
     "stable_cases_differing_only_in_the_open_last_report": open_last,
 }, assumptions=[
